@@ -513,11 +513,13 @@ impl CldbRunEnv {
                     let line_text = self.program_lines[use_line].to_string();
                     if use_col >= line_text.len() {
                         None
-                    } else if end_col >= line_text.len() {
-                        end_col = line_text.len();
-                        Some(line_text[use_col..end_col].to_string())
                     } else {
-                        Some(line_text[use_col..end_col].to_string())
+                        if end_col >= line_text.len() {
+                            end_col = line_text.len();
+                        }
+                        // A location that ends on a later line can end left of
+                        // where it starts: there is no text to show then.
+                        line_text.get(use_col..end_col).map(|s| s.to_string())
                     }
                 }
             })
